@@ -54,7 +54,9 @@ T_C = 'CUSTOM_T_C'
 TRAITS = (T_A, T_B, T_C, SHARING)          # the four traits of the scope
 CUSTOM_TRAITS = (T_B, T_C)                 # created in every state (also when no provider has them)
 TOGGLE_TRAITS = (T_A, T_B, SHARING)
-AGGS = (A(1), A(2), A(3))
+# the third aggregate is spelled in upper case: aggregate uuids are stored as the client wrote
+# them, so filters naming them must treat the value as opaque
+AGGS = (A(1), A(2), A(3).upper())
 FILLER = K(1)
 INV_FIELDS = ('total', 'reserved', 'min_unit', 'max_unit', 'step_size', 'allocation_ratio')
 
